@@ -187,6 +187,8 @@ ea_mkops(int tier)
 	for (b = 0; b < 3; b++) EAOPS[NEAOPS++] = (struct eaop){EA_EXPORT, 0, RL[b]};
 	for (b = 1; b < 3; b++) EAOPS[NEAOPS++] = (struct eaop){EA_OVF_APPEND, SIZE_MAX / RL[b] + 1, RL[b]};
 	EAOPS[NEAOPS++] = (struct eaop){EA_OVF_APPEND_SUM, 0, 1};
+	/* the same with records longer than one byte: nrec * reclen fits, size + nrec * reclen does not */
+	for (b = 1; b < 3; b++) EAOPS[NEAOPS++] = (struct eaop){EA_OVF_APPEND_SUM, 0, RL[b]};
 	for (b = 1; b < 3; b++) EAOPS[NEAOPS++] = (struct eaop){EA_OVF_RESIZE, SIZE_MAX / RL[b] + 1, RL[b]};
 	for (b = 1; b < 3; b++) EAOPS[NEAOPS++] = (struct eaop){EA_OVF_SHRINK, SIZE_MAX / RL[b] + 1, RL[b]};
 }
@@ -197,7 +199,7 @@ ea_opname(uint32_t op, char * b, size_t n)
 	if (op >= (uint32_t)NEAOPS) { snprintf(b, n, "op%u", op); return b; }
 	if (o->kind == EA_TRUNCATE) snprintf(b, n, "truncate");
 	else if (o->kind == EA_EXPORT || o->kind == EA_EXPORTDUP) snprintf(b, n, "%s(reclen=%zu)", ea_kname[o->kind], o->reclen);
-	else if (o->kind == EA_OVF_APPEND_SUM) snprintf(b, n, "append(nrec=SIZE_MAX-size+1, reclen=1)");
+	else if (o->kind == EA_OVF_APPEND_SUM) snprintf(b, n, "append(nrec=(SIZE_MAX-size)/%zu+1, reclen=%zu)", o->reclen, o->reclen);
 	else if (o->kind >= EA_OVF_APPEND) snprintf(b, n, "%s(nrec=SIZE_MAX/%zu+1, reclen=%zu)", ea_kname[o->kind], o->reclen, o->reclen);
 	else snprintf(b, n, "%s(nrec=%zu, reclen=%zu)", ea_kname[o->kind], o->nrec, o->reclen);
 	return b;
@@ -255,7 +257,7 @@ ea_enabled(size_t size, const struct eaop * o)
 {
 	if (o->kind == EA_APPEND) return size + o->nrec * o->reclen <= (size_t)cur.cap;
 	if (o->kind == EA_RESIZE || o->kind == EA_INIT) return o->nrec * o->reclen <= (size_t)cur.cap;
-	if (o->kind == EA_OVF_APPEND_SUM) return size > 0;
+	if (o->kind == EA_OVF_APPEND_SUM) return size >= o->reclen;	/* so that nrec itself still passes the nrec <= SIZE_MAX / reclen test */
 	return 1;
 }
 static void
@@ -331,7 +333,7 @@ ea_edge(const uint8_t * s, size_t len, uint32_t op)
 		S.E.transitions++;	/* terminal edge */
 		break; }
 	case EA_OVF_APPEND: case EA_OVF_APPEND_SUM: case EA_OVF_RESIZE: {
-		size_t nrec = o->kind == EA_OVF_APPEND_SUM ? SIZE_MAX - size + 1 : o->nrec;
+		size_t nrec = o->kind == EA_OVF_APPEND_SUM ? (SIZE_MAX - size) / o->reclen + 1 : o->nrec;
 		data[0] = 0;
 		if (o->kind == EA_OVF_RESIZE) LIB(rc = elasticarray_resize(EA, nrec, o->reclen)); else LIB(rc = elasticarray_append(EA, data, nrec, o->reclen));
 		if (rc != -1) fail("overflow", "a call whose size computation overflows returned %d", rc);
